@@ -140,6 +140,12 @@ class UnitFile:
                         sig=sig, prefix=prefix, suffix=suffix,
                         qual="%s[%s]" % (within, pattern))
 
+    def add_item_fn(self, rel, item, gname, sig, contract=None, rules=(), subst=(), prefix="",
+                    suffix="", qual=None):
+        """Like add_block_fn, for a block the unit located itself (an extract.Item)."""
+        self._emit_item(item, rel, gname, contract, rules, subst, kind="block", sig=sig,
+                        prefix=prefix, suffix=suffix, qual=qual or item.name)
+
     # ------------------------------------------------------------------
     def _emit_item(self, it, rel, gname, contract, rules, subst, kind, wrap_impl=None,
                    qual=None, sig=None, prefix="", suffix=""):
